@@ -368,6 +368,17 @@ def _group_subscripts(ctx):
             names = {k for k in gf if isinstance(k, str)}
             allgroups |= names
             byname[r['name']] = names
+    # is the inventory complete?  (a pattern built in a way the folder cannot
+    # follow makes "no regex defines this group" undecidable)
+    incomplete = []
+    for mod in ctx.repo.modules.values():
+        if '.rgxlib.' not in mod.name and not mod.name.endswith('.trs'):
+            continue
+        env_ = ctx.fold.module_env(mod.name)
+        for st in mod.tree.body:
+            if isinstance(st, ast.Assign) and isinstance(st.value, ast.Call) and dotted(st.value.func) == 're.compile' \
+                    and isinstance(st.targets[0], ast.Name) and is_unknown(env_.get(st.targets[0].id)):
+                incomplete.append(st.targets[0].id)
     n = 0
     for fi in _parser_funcs(ctx):
         # match variables bound from a known regex
@@ -403,6 +414,9 @@ def _group_subscripts(ctx):
                     ctx.check(g in byname[rn], 'RX-GROUPS', f"{fi.qualname}: {recv}[{g!r}] is a group of {rn}",
                               detail_bad=f"{rn} has no group {g!r}: IndexError('no such group') whenever this line runs",
                               key=f"RX-GROUPS|{fi.qualname}|{recv}|{g}", where=common.loc(fi, node))
+            elif incomplete and g not in allgroups:
+                ctx.undecided('RX-GROUPS', f"{fi.qualname}: group {g!r} exists in some regex of the package",
+                              f"patterns {incomplete[:4]} do not fold, so the inventory of groups is incomplete")
             else:
                 ctx.check(g in allgroups, 'RX-GROUPS', f"{fi.qualname}: group {g!r} exists in some regex of the package",
                           detail_bad=f"no regex defines a group {g!r}", key=f"RX-GROUPS|{fi.qualname}|any|{g}",
